@@ -31,7 +31,8 @@ type choice struct {
 type clause struct {
 	id     int
 	head   Term
-	body   Term
+	body   Term // converted to a goal (ISO 7.6.2): what executes
+	raw    Term // the body as given: what clause/2 and retract/1 see
 	erased bool
 }
 
@@ -102,6 +103,8 @@ func (m *Machine) addClause(t Term, front bool, dynamic bool) error {
 	if c, ok := isComp(t, ":-", 2); ok {
 		head, body = deref(c.args[0]), deref(c.args[1])
 	}
+	raw := body
+	body = convertBody(body) // ISO 7.6.2: a variable in a body position becomes call(Var) when the clause is added
 	name, arity := "", 0
 	switch h := deref(head).(type) {
 	case Atom:
@@ -120,7 +123,7 @@ func (m *Machine) addClause(t Term, front bool, dynamic bool) error {
 		m.db[k] = p
 	}
 	m.clauseID++
-	c := &clause{id: m.clauseID, head: head, body: body}
+	c := &clause{id: m.clauseID, head: head, body: body, raw: raw}
 	if front {
 		p.clauses = append([]*clause{c}, p.clauses...)
 	} else {
@@ -286,6 +289,22 @@ func checkBody(t Term) bool {
 }
 
 // countGoals: the largest number of goals in one conjunction of the body (looking through ; and ->).
+// convertBody converts a term to a goal (ISO 7.6.2): through the control constructs , ; -> a variable
+// becomes call(Var); everything else is left as it is. The conversion happens once, when a clause is
+// added or when call/N is executed - bindings made later do not turn a call(Var) into a control construct.
+func convertBody(t Term) Term {
+	t = deref(t)
+	switch x := t.(type) {
+	case *Var:
+		return mk("call", x)
+	case *Comp:
+		if len(x.args) == 2 && (x.f == "," || x.f == ";" || x.f == "->") {
+			return &Comp{x.f, []Term{convertBody(x.args[0]), convertBody(x.args[1])}}
+		}
+	}
+	return t
+}
+
 func countGoals(t Term) int {
 	if c, ok := isComp(t, ",", 2); ok {
 		return countGoals(c.args[0]) + countGoals(c.args[1])
@@ -389,7 +408,7 @@ func (r *run) step(f *frame) (bool, error) {
 			m.Stats.CutLocal++
 			mark := len(m.trail)
 			found := false
-			err := r.sub(a[0], func() bool { found = true; return false })
+			err := r.sub(convertBody(a[0]), func() bool { found = true; return false })
 			m.undo(mark)
 			if err != nil {
 				return false, err
@@ -416,10 +435,10 @@ func (r *run) step(f *frame) (bool, error) {
 				return false, m.throwErr(mk("type_error", Atom("callable"), goal))
 			}
 			m.Stats.CutLocal++
-			push(goal, len(r.cps), f.K)
+			push(convertBody(goal), len(r.cps), f.K)
 			return true, nil
 		case "once/1":
-			push(mk("->", a[0], Atom("true")), f.B, f.K)
+			push(mk("call", mk("->", a[0], Atom("true"))), f.B, f.K)
 			return true, nil
 		case "catch/3":
 			rec := &catchRec{catcher: a[1], recovery: a[2], after: r.goals, B: f.B, parent: f.K, cpHeight: len(r.cps), mark: len(m.trail)}
@@ -457,7 +476,7 @@ func (r *run) step(f *frame) (bool, error) {
 			m.Stats.CutLocal++
 			var res []Term
 			mark := len(m.trail)
-			err := r.sub(a[1], func() bool { res = append(res, m.copyTerm(a[0], map[*Var]Term{})); return true })
+			err := r.sub(convertBody(a[1]), func() bool { res = append(res, m.copyTerm(a[0], map[*Var]Term{})); return true })
 			m.undo(mark)
 			if err != nil {
 				return false, err
@@ -820,7 +839,7 @@ func (r *run) clause(head, body Term) (bool, error) {
 		c := c
 		alts = append(alts, func() *frame {
 			ren := map[*Var]Term{}
-			if m.unify(head, m.copyTerm(c.head, ren)) && m.unify(body, m.copyTerm(c.body, ren)) {
+			if m.unify(head, m.copyTerm(c.head, ren)) && m.unify(body, m.copyTerm(c.raw, ren)) {
 				return wrap(rest)
 			}
 			return nil
@@ -869,7 +888,7 @@ func (r *run) retract(t Term) (bool, error) {
 				return nil
 			}
 			ren := map[*Var]Term{}
-			if m.unify(head, m.copyTerm(c.head, ren)) && m.unify(body, m.copyTerm(c.body, ren)) {
+			if m.unify(head, m.copyTerm(c.head, ren)) && m.unify(body, m.copyTerm(c.raw, ren)) {
 				if !c.erased {
 					c.erased = true
 					if m.open[k] > 0 {
@@ -959,7 +978,7 @@ func (r *run) bagof(set bool, tmpl, goal, inst Term, f *frame) (bool, error) {
 	witness := mk("$w", append([]Term{Atom("w")}, free...)...)
 	var sols []Term
 	mark := len(m.trail)
-	err := r.sub(g, func() bool {
+	err := r.sub(convertBody(g), func() bool {
 		sols = append(sols, m.copyTerm(mk("+", witness, tmpl), map[*Var]Term{}))
 		return true
 	})
